@@ -45,4 +45,19 @@ PROPS = {
         "not_decided": ["dispatchers over functions with exactly five parameters are covered for the keyword wrappers only (family bound 4 for the vmap-based dispatchers)"],
         "assumptions": COMMON_ASSUMPTIONS + ["the mapped function is pure and is applied to scalars (uninterpreted function of its bound arguments)", "jax.vmap contract: trace-like, out[i] = f(mapped arguments at i)"],
     },
+    "C15": {
+        "contracts": [
+            "lcm.ndimage._compute_indices_and_weights",
+            "lcm.ndimage.map_coordinates",
+            "lcm.grid_helpers.get_linspace_coordinate",
+            "lcm.grid_helpers.linspace",
+            "C15.linear-grid-roundtrip",
+        ],
+        "families": {
+            "quick": "kernel: ranks 1..2 scalar coordinates and ranks 1..2 batched; per-axis cell and grid-coordinate contracts for all sizes/bounds/values (no structure parameter)",
+            "thorough": "kernel: ranks 1..4 (the statement's bound) scalar coordinates, ranks 1..3 batched; plus CPython differential",
+        },
+        "not_decided": ["floating-point behaviour of floor at grid nodes of a logarithmic grid"],
+        "assumptions": COMMON_ASSUMPTIONS + ["array extents >= 2 along interpolated axes (grids with one point are a C12 matter)"],
+    },
 }
